@@ -21,8 +21,12 @@ CONSTANTS N,             \* number of workers
                          \*   "noresend"   a worker that received Quit leaves without pushing it again
                          \*   "nolastquit" the last worker to go idle does not broadcast Quit
                          \*   "quitflag0"  the quit flag is raised when the counter reaches 0 (seeded change C07-A)
+                         \*   "skipstops"  a Skip answered to an error entry abandons the rest of the directory (seeded change C07-D)
 
-VARIABLES tree,     \* [ch |-> function node -> set of children, roots |-> sequence of root nodes]
+VARIABLES tree,     \* [ch |-> function node -> set of children, roots |-> sequence of root nodes,
+                    \*  err |-> entries that cannot be read (a dangling link under follow_links, ...): never queued, handed to
+                    \*          the visitor as an error by the worker that lists the parent directory (generate_work),
+                    \*  skip |-> nodes at which the visitor answers Skip]
           quitAt,   \* set of nodes at which the visitor answers Quit
           deque,    \* per worker: sequence of messages, owner pushes/pops at the end (LIFO)
           hand,     \* per worker: message being processed
@@ -103,25 +107,41 @@ Chk(w) ==
                                     ELSE IF h.k = "none" THEN "deact" ELSE "visit"]
   /\ UNCHANGED <<tree, quitAt, deque, todo, active, quitNow, visited>>
 
-\* Worker::run_one: the visitor is called with the entry; Quit => quit_now(), else children are sent
+\* Worker::run_one: the visitor is called with the entry; Quit => quit_now(); Skip => the directory is not listed;
+\* else its entries are listed (generate_work for each)
 Visit(w) ==
   /\ pc[w] = "visit"
   /\ visited' = [visited EXCEPT ![hand[w].n] = @ + 1]
-  /\ IF hand[w].n \in quitAt
+  /\ LET kids == IF hand[w].n \in tree.skip THEN {} ELSE tree.ch[hand[w].n] IN
+     IF hand[w].n \in quitAt
      THEN pc' = [pc EXCEPT ![w] = "setquit"] /\ todo' = [todo EXCEPT ![w] = {}]
-     ELSE /\ todo' = [todo EXCEPT ![w] = tree.ch[hand[w].n]]
-          /\ pc' = [pc EXCEPT ![w] = IF tree.ch[hand[w].n] = {} THEN "recv" ELSE "gen"]
+     ELSE /\ todo' = [todo EXCEPT ![w] = kids]
+          /\ pc' = [pc EXCEPT ![w] = IF kids = {} THEN "recv" ELSE "gen"]
   /\ hand' = [hand EXCEPT ![w] = NoneMsg]
   /\ UNCHANGED <<tree, quitAt, deque, active, quitNow>>
 
 \* Worker::send for one child (generate_work); after the last one: back to get_work()
 PushChild(w) ==
   /\ pc[w] = "gen" /\ todo[w] # {}
-  /\ \E c \in todo[w] :
+  /\ \E c \in todo[w] \ tree.err :
        /\ deque' = [deque EXCEPT ![w] = Append(@, Work(c))]
        /\ todo' = [todo EXCEPT ![w] = @ \ {c}]
        /\ pc' = [pc EXCEPT ![w] = IF todo[w] = {c} THEN "recv" ELSE "gen"]
   /\ UNCHANGED <<tree, quitAt, hand, active, quitNow, visited>>
+
+\* generate_work on an entry that cannot be read: the visitor gets the error at once, on this worker; only Quit matters
+\* (Skip on an error entry means nothing: the loop over the directory goes on)
+VisitErr(w) ==
+  /\ pc[w] = "gen"
+  /\ \E c \in todo[w] \cap tree.err :
+       /\ visited' = [visited EXCEPT ![c] = @ + 1]
+       /\ IF c \in quitAt
+          THEN todo' = [todo EXCEPT ![w] = {}] /\ pc' = [pc EXCEPT ![w] = "setquit"]
+          ELSE IF Mutant = "skipstops" /\ c \in tree.skip
+               THEN todo' = [todo EXCEPT ![w] = {}] /\ pc' = [pc EXCEPT ![w] = "recv"]
+               ELSE /\ todo' = [todo EXCEPT ![w] = @ \ {c}]
+                    /\ pc' = [pc EXCEPT ![w] = IF todo[w] = {c} THEN "recv" ELSE "gen"]
+  /\ UNCHANGED <<tree, quitAt, deque, hand, active, quitNow>>
 
 SetQuit(w) ==
   /\ pc[w] = "setquit"
@@ -155,16 +175,16 @@ PushQuit(w) ==
   /\ pc' = [pc EXCEPT ![w] = "done"]
   /\ UNCHANGED <<tree, quitAt, todo, active, quitNow, visited>>
 
-Step(w) == Recv(w) \/ Chk(w) \/ Visit(w) \/ PushChild(w) \/ SetQuit(w)
+Step(w) == Recv(w) \/ Chk(w) \/ Visit(w) \/ PushChild(w) \/ VisitErr(w) \/ SetQuit(w)
            \/ Deactivate(w) \/ IdleRecv(w) \/ Activate(w) \/ PushQuit(w)
 Next == \E w \in W : Step(w)
 
 \* ------------------------------------------------------------------ properties
 AllDone == \A w \in W : pc[w] = "done"
 
-\* every node reachable from the roots
+\* every node reachable from the roots without descending into a directory at which the visitor answers Skip
 RECURSIVE Reach(_)
-Reach(S) == LET nxt == S \cup UNION {tree.ch[n] : n \in S} IN IF nxt = S THEN S ELSE Reach(nxt)
+Reach(S) == LET nxt == S \cup UNION {IF n \in tree.skip THEN {} ELSE tree.ch[n] : n \in S} IN IF nxt = S THEN S ELSE Reach(nxt)
 Reachable == Reach({tree.roots[i] : i \in 1..Len(tree.roots)})
 
 \* a visitor has asked to quit (not the same thing as the quit flag being set: a protocol that raises the flag on
